@@ -130,20 +130,24 @@ func applyFacade(a *Router, s fstep) (string, any, bool) {
 			switch p := parent.(type) {
 			case *Router:
 				if d.Kind == "prefix" {
-					return p.Prefix(d.Arg, mws(nil, d.MW)...)
+					return p.Prefix(d.Arg, spare(nil, d.MW)...)
 				}
-				return p.Resource(d.Arg, mws(nil, d.MW)...)
+				return p.Resource(d.Arg, spare(nil, d.MW)...)
 			case *mux.Prefix[*hv.H]:
 				if d.Kind == "prefix" {
-					return p.Prefix(d.Arg, mws(nil, d.MW)...)
+					return p.Prefix(d.Arg, spare(nil, d.MW)...)
 				}
-				return p.Resource(d.Arg, mws(nil, d.MW)...)
+				return p.Resource(d.Arg, spare(nil, d.MW)...)
 			}
 			panic("harness: bad facade " + name)
 		}
 		full, _ := facadeText(s.F)
 		h := hv.Route("h:" + full + s.P + ":" + s.K + strings.Join(s.Ms, "+"))
-		m := mws(nil, s.MW)
+		var fac any
+		if s.F != "" {
+			fac = build(s.F) // facades first: the slice below must be the last one made from the arena
+		}
+		m := spare(nil, s.MW)
 		if s.F == "" {
 			switch s.K {
 			case "get":
@@ -154,7 +158,7 @@ func applyFacade(a *Router, s fstep) (string, any, bool) {
 			}
 			return
 		}
-		switch f := build(s.F).(type) {
+		switch f := fac.(type) {
 		case *mux.Prefix[*hv.H]:
 			switch s.K {
 			case "get":
